@@ -7,10 +7,11 @@ Require Import NV.C23.Model NV.C19.Model NV.C19.Proofs.
 Local Open Scope nat_scope.
 
 (* allreduce_sum's pairwise tree (the C23 model) over any associative operation is the ordered sum
-   of all summands -- each exactly once -- for 1..128 summands (samples). *)
+   of all summands -- each exactly once -- for every number >= 1 of summands (samples)
+   (unbounded, via NV.C23.Leaves). *)
 Theorem C19_tree_is_ordered_sum :
   forall (A : Type) (op : A -> A -> A), (forall a b c, op a (op b c) = op (op a b) c) ->
-  forall vals : list A, 1 <= length vals <= 128 -> seq_sum A op vals = sum1 op vals.
+  forall vals : list A, 1 <= length vals -> seq_sum A op vals = sum1 op vals.
 Proof. exact tree_sum_assoc. Qed.
 
 (* value / gradient / metric of the sampled KL = arithmetic mean over mean +- residual_i of the
@@ -21,7 +22,7 @@ Theorem C19_value_is_mean :
   (forall a b c, tadd a (tadd b c) = tadd (tadd a b) c) ->
   forall (hval : list nat -> mf T -> T) (hgrad : mf T -> mf T) (e : kl T),
   let smp := sl_samples T tadd tsub (kl_sl e) in
-  1 <= length smp <= 128 ->
+  1 <= length smp ->
   kl_value T tadd tsub tdivn hval hgrad e
   = option_map (fun s => tdivn s (length smp)) (sum1 tadd (map (hval (kl_constants e)) smp)).
 Proof. exact kl_value_mean. Qed.
@@ -31,7 +32,7 @@ Theorem C19_gradient_is_mean :
   (forall a b c, tadd a (tadd b c) = tadd (tadd a b) c) ->
   forall (hval : list nat -> mf T -> T) (hgrad : mf T -> mf T) (e : kl T),
   let smp := sl_samples T tadd tsub (kl_sl e) in
-  1 <= length smp <= 128 ->
+  1 <= length smp ->
   kl_gradient T tadd tsub tdivn hval hgrad e
   = option_map (fun s => mf_divn T tdivn s (length smp))
       (sum1 (mf_add T tadd) (map (fun s => reduce_field T (hgrad s) (kl_constants e)) smp)).
@@ -42,7 +43,7 @@ Theorem C19_metric_is_mean :
   (forall a b c, tadd a (tadd b c) = tadd (tadd a b) c) ->
   forall (hmet : mf T -> mf T -> mf T) (e : kl T) (x : mf T),
   let smp := sl_samples T tadd tsub (kl_sl e) in
-  1 <= length smp <= 128 ->
+  1 <= length smp ->
   kl_apply_metric T tadd tsub tdivn hmet e x
   = option_map (fun s => mf_divn T tdivn s (length smp))
       (sum1 (mf_add T tadd)
@@ -54,7 +55,7 @@ Theorem C19_jax_value_equals_classic :
   forall (T : Type) (tadd tsub : T -> T -> T) (tdivn : T -> nat -> T),
   (forall a b c, tadd a (tadd b c) = tadd (tadd a b) c) ->
   forall (hval : list nat -> mf T -> T) (hgrad : mf T -> mf T) (primals : mf T) (res : list (mf T)),
-  1 <= length res <= 128 ->
+  1 <= length res ->
   jax_kl_value T tadd tsub tdivn hval primals res
   = kl_value T tadd tsub tdivn hval hgrad
       {| kl_sl := {| sl_mean := primals; sl_res := res; sl_neg := repeat false (length res) |};
@@ -65,7 +66,7 @@ Theorem C19_jax_gradient_equals_classic :
   forall (T : Type) (tadd tsub : T -> T -> T) (tdivn : T -> nat -> T),
   (forall a b c, tadd a (tadd b c) = tadd (tadd a b) c) ->
   forall (hval : list nat -> mf T -> T) (hgrad : mf T -> mf T) (primals : mf T) (res : list (mf T)) (cst : list nat),
-  1 <= length res <= 128 ->
+  1 <= length res ->
   jax_kl_grad T tadd tsub tdivn hgrad cst primals res
   = kl_gradient T tadd tsub tdivn hval hgrad
       {| kl_sl := {| sl_mean := primals; sl_res := res; sl_neg := repeat false (length res) |};
@@ -135,7 +136,7 @@ Proof. exact samples_with_invariants. Qed.
 
 (* the rational instance evaluated by the correspondence satisfies the associativity hypothesis *)
 Theorem C19_rational_instance :
-  forall vals : list Q, 1 <= length vals <= 128 -> seq_sum Q qadd vals = sum1 qadd vals.
+  forall vals : list Q, 1 <= length vals -> seq_sum Q qadd vals = sum1 qadd vals.
 Proof. exact (tree_sum_assoc Q qadd qadd_assoc). Qed.
 
 (* The literal value statement is REFUTED for the classic API when constants are present: the
@@ -160,7 +161,7 @@ Qed.
    sample mean of the Hamiltonian's own value (rational instance used by the correspondence). *)
 Theorem C19_value_without_constants :
   forall (M : pmodel) (s : slist Q) (inv : option qmf),
-  1 <= length (sl_samples Q qadd qsub s) <= 128 ->
+  1 <= length (sl_samples Q qadd qsub s) ->
   q_kl_value M {| kl_sl := s; kl_constants := []; kl_invariants := inv |}
   = q_mean_of_hamiltonian M {| kl_sl := s; kl_constants := []; kl_invariants := inv |}.
 Proof. exact q_value_no_constants. Qed.
